@@ -284,3 +284,24 @@ Example c15_publisher_nonvacuous :
   p_mode s = PStopped /\ p_store s = [] /\ p_next s = 6 /\
   p_store (prun (Some 5) 7 [OStart; OLose false; OLose true]) = [(10, 3)].
 Proof. vm_compute. repeat split; reflexivity. Qed.
+
+(* ---------------------------------------------------------------- round 5 *)
+(* A snapshot Get that fails or times out (GetFail) leaves nothing behind: every attempt of load has its own
+   request context, so wherever failed attempts occur in a history, cluster, store and "synced" are what they are
+   without them. Hence every theorem above holds for (re)loads that only succeed after any number of failures, with
+   registry changes made meanwhile: once the Get succeeds (the Reload / Subscribe event) the view is the registry
+   and a watch is running again (c15_cluster_tracks, c15_converges, c15_updates_reach_listeners). *)
+Theorem c15_failed_snapshot_attempts : forall u h1 h2,
+  run u (h1 ++ GetFail :: h2) = run u (h1 ++ h2) /\
+  sync_state u (h1 ++ GetFail :: h2) = sync_state u (h1 ++ h2) /\
+  spec_etcd (h1 ++ GetFail :: h2) = spec_etcd (h1 ++ h2).
+Proof. exact getfail_skip. Qed.
+Print Assumptions c15_failed_snapshot_attempts.
+
+Example c15_retry_converges :
+  let u := fun _ : key => true in
+  (* connection lost; the first two snapshot attempts fail while an instance leaves and another arrives *)
+  let h := [Subscribe [] [] []; Put 1 7 true; GetFail; Del 1 false; GetFail; Put 2 8 false; Reload [] []; Put 3 7 true] in
+  synced u h = true /\ nwatch (run u h) = 1 /\
+  map (fun log => fst (get_values (crun false (map OCall log)))) (subs (run u h)) = [Ok [7; 8]].
+Proof. vm_compute. repeat split; reflexivity. Qed.
